@@ -18,6 +18,9 @@ def colour_arg(c):
             return {'kind': 'hex', 'digits': [int(ch, 16) for ch in s]}
         return {'kind': 'name', 'name': s.lower()}
     if isinstance(c, tuple):
+        if len(c) == 3 and any(isinstance(x, float) for x in c):
+            # EPS / PDF: "this method accepts floats as R, G, B values" - a float component is an intensity 0.0 .. 1.0, an int one c / 255
+            return {'kind': 'unit', 'mb': [int(round(x * 255 * 1000)) if isinstance(x, float) else int(x) * 1000 for x in c]}
         if len(c) == 4 and isinstance(c[3], float):
             return {'kind': 'tuplef', 'v': [int(x) for x in c[:3]], 'alpha_pm': int(round(c[3] * 1000))}
         return {'kind': 'tuple', 'v': [int(x) for x in c]}
